@@ -191,6 +191,211 @@ theorem code_converge (P : Parser Path Key Page Content) (owner : Key → Path) 
   · rw [← henv]; exact h.1.1.1.eq_storeOf P owner srcs owns
   · rw [← henv]; exact deliver_of_inv P owner srcs owns post final.toSt h.1.1
 
+/-! ## Sources that read other sources (layer 3) -/
+
+/-- invariant of the layer-3 model: the edges of every existing source are the recorded ones for the CURRENT environment -
+in particular every edge holds what its target holds now -/
+def CodeInv3 (P : Parser Path Key Page Content) (owner : Key → Path) (srcs : List Path)
+    (recorded : Env Path Content → Path → List (Path × Option Content)) (post : Store Path Key Page → Result)
+    (st : CodeSt3 Path Key Page Content Result) : Prop :=
+  Inv P owner srcs post st.toSt ∧
+    ∀ s ∈ srcs, (st.env s).isSome = true → st.graph s = recorded st.env s
+
+/-- the re-parse set computed from the edges (with what they held) meets the weaker obligation -/
+theorem chosen3_covers [DecidableEq Content] (P : Parser Path Key Page Content) (srcs : List Path)
+    (recorded : Env Path Content → Path → List (Path × Option Content))
+    (hrec : ∀ e s q, s ∈ srcs → (e s).isSome = true → q ∈ P.reads e s → q ≠ s → (q, e q) ∈ recorded e s)
+    (e : Env Path Content) (graph : Path → List (Path × Option Content))
+    (hg : ∀ s ∈ srcs, (e s).isSome = true → graph s = recorded e s)
+    (op : Op Path Content) (q : Path) (hq : op.touched = some q) :
+    CoversCh P srcs e op (chosen3 srcs graph e op q) := by
+  intro s hs q' hq' hor
+  have : q' = q := by rw [hq] at hq'; exact (Option.some.inj hq').symm
+  subst this
+  unfold chosen3
+  by_cases hsq : s = q'
+  · subst hsq; simp [hs]
+  · cases hor with
+    | inl h => exact absurd h hsq
+    | inr h =>
+      obtain ⟨hex, hread, hch⟩ := h
+      have hmem : (q', e q') ∈ graph s := by
+        rw [hg s hs hex]; exact hrec e s q' hs hex hread (fun hh => hsq hh.symm)
+      apply List.mem_append_right
+      apply List.mem_filter.2
+      refine ⟨hs, ?_⟩
+      simp only [Bool.and_eq_true, decide_eq_true_eq, List.any_eq_true, Bool.or_eq_true]
+      refine ⟨hsq, (q', e q'), hmem, rfl, Or.inr ?_⟩
+      exact fun hh => hch hh.symm
+
+/-- **Convergence of the code's re-parse policy when sources read other sources.** `update(q)` re-parses `q` and every
+source that read `q` when it held something else than it holds now; create / delete / a non-source file re-parse every
+source with an edge to `q`. If every file a parse reads besides the source itself is recorded as an edge together with
+what it held (`hrec` - no longer restricted to non-source files), and the recorded edges obey the footprint law (`hfp`),
+then after every operation sequence the store is the clean-build store and the next postprocessing result is the clean
+one. (The environment is the one the parser reads through: for a file that other pages read, its state on disk.) -/
+theorem code_converge3 [DecidableEq Content] (P : Parser Path Key Page Content) (owner : Key → Path) (srcs : List Path)
+    (owns : ∀ e p k pg, (k, pg) ∈ P.parse e p → owner k = p)
+    (recorded : Env Path Content → Path → List (Path × Option Content))
+    (hrec : ∀ e s q, s ∈ srcs → (e s).isSome = true → q ∈ P.reads e s → q ≠ s → (q, e q) ∈ recorded e s)
+    (hfp : ∀ e e' s, (∀ f ∈ P.reads e s, e f = e' f) → recorded e s = recorded e' s)
+    (post : Store Path Key Page → Result) (e₀ : Env Path Content) (ops : List (Op Path Content)) :
+    let final := codeRun3 P recorded srcs post (CodeSt3.init P recorded srcs post e₀) ops
+    final.env = envAfter e₀ ops ∧
+    final.store = storeOf P srcs (envAfter e₀ ops) ∧
+    deliver post final.toSt = post (storeOf P srcs (envAfter e₀ ops)) := by
+  intro final
+  have hstep : ∀ (st : CodeSt3 Path Key Page Content Result) (op : Op Path Content),
+      CodeInv3 P owner srcs recorded post st →
+      CodeInv3 P owner srcs recorded post (codeStep3 P recorded srcs post st op) ∧
+        (codeStep3 P recorded srcs post st op).env = op.env st.env := by
+    intro st op hi
+    cases ht : op.touched with
+    | none =>
+      have hop : op = .postprocess := by cases op <;> simp [Op.touched] at ht ⊢
+      subst hop
+      have hcov : CoversCh P srcs st.env (Op.postprocess : Op Path Content) [] := by
+        intro s _ q hq; simp [Op.touched] at hq
+      have h1 := inv_step_ch P owner srcs owns post st.toSt (.postprocess, []) hi.1 hcov
+      have he := step_env P owner srcs owns post st.toSt (.postprocess, [])
+      unfold codeStep3
+      simp only [ht]
+      refine ⟨⟨h1, ?_⟩, he⟩
+      intro s hs hex
+      have he' : (step P srcs post st.toSt (Op.postprocess, [])).env = st.env := he
+      rw [he'] at hex ⊢
+      exact hi.2 s hs hex
+    | some q =>
+      have hcov := chosen3_covers P srcs recorded hrec st.env st.graph hi.2 op q ht
+      have h1 := inv_step_ch P owner srcs owns post st.toSt (op, chosen3 srcs st.graph st.env op q) hi.1 hcov
+      have he := step_env P owner srcs owns post st.toSt (op, chosen3 srcs st.graph st.env op q)
+      unfold codeStep3
+      simp only [ht]
+      refine ⟨⟨h1, ?_⟩, he⟩
+      intro s hs hex
+      have he' : (step P srcs post st.toSt (op, chosen3 srcs st.graph st.env op q)).env = op.env st.env := he
+      rw [he'] at hex ⊢
+      show (if s ∈ chosen3 srcs st.graph st.env op q then
+          (if s ∈ srcs ∧ (op.env st.env s).isSome = true then recorded (op.env st.env) s else [])
+        else st.graph s) = recorded (op.env st.env) s
+      by_cases hR : s ∈ chosen3 srcs st.graph st.env op q
+      · rw [if_pos hR, if_pos ⟨hs, hex⟩]
+      · rw [if_neg hR]
+        have hnot : ¬ (s = q ∨ ((st.env s).isSome = true ∧ q ∈ P.reads st.env s ∧ op.env st.env q ≠ st.env q)) :=
+          fun hor => hR (hcov s hs q ht hor)
+        have hself : op.env st.env s = st.env s := by
+          apply Op.env_other
+          intro h; rw [ht] at h
+          exact hnot (Or.inl (Option.some.inj h).symm)
+        rw [hself] at hex
+        rw [hi.2 s hs hex]
+        apply hfp
+        intro f hf
+        symm
+        by_cases htf : op.touched = some f
+        · rw [ht] at htf
+          have : q = f := Option.some.inj htf
+          subst this
+          by_cases hch : op.env st.env q = st.env q
+          · exact hch
+          · exact absurd (Or.inr ⟨hex, hf, hch⟩) hnot
+        · exact Op.env_other op st.env f htf
+  have hrun : ∀ (ops : List (Op Path Content)) (st : CodeSt3 Path Key Page Content Result),
+      CodeInv3 P owner srcs recorded post st →
+      CodeInv3 P owner srcs recorded post (codeRun3 P recorded srcs post st ops) ∧
+        (codeRun3 P recorded srcs post st ops).env = envAfter st.env ops := by
+    intro ops
+    induction ops with
+    | nil => intro st hi; exact ⟨hi, rfl⟩
+    | cons op rest ih =>
+      intro st hi
+      have h1 := hstep st op hi
+      have h2 := ih _ h1.1
+      refine ⟨h2.1, ?_⟩
+      show (codeRun3 P recorded srcs post (codeStep3 P recorded srcs post st op) rest).env = envAfter (op.env st.env) rest
+      rw [h2.2, h1.2]
+  have hinit : CodeInv3 P owner srcs recorded post (CodeSt3.init P recorded srcs post e₀) := by
+    refine ⟨inv_init P owner srcs owns post e₀, ?_⟩
+    intro s hs hex
+    have hex' : (e₀ s).isSome = true := hex
+    simp [CodeSt3.init, hs, hex']
+    rfl
+  have h := hrun ops _ hinit
+  have henv : final.env = envAfter e₀ ops := h.2
+  refine ⟨henv, ?_, ?_⟩
+  · rw [← henv]; exact h.1.1.1.eq_storeOf P owner srcs owns
+  · rw [← henv]; exact deliver_of_inv P owner srcs owns post final.toSt h.1.1
+
+/-! ### non-vacuity of `code_converge3`: page `0` shows source `1` verbatim -/
+
+def lit3Parse (e : Env Nat Nat) (p : Nat) : List (Nat × Nat) :=
+  if p = 0 then [(100, (e 0).getD 0 + 1000 * (e 1).getD 7)] else if p = 1 then [(101, (e 1).getD 0)] else []
+
+def lit3 : Parser Nat Nat Nat Nat :=
+  { parse := lit3Parse,
+    reads := fun _ p => if p = 0 then [0, 1] else [p],
+    footprint := by
+      intro e e' p h
+      unfold lit3Parse
+      by_cases h0 : p = 0
+      · subst h0
+        have a := h 0 (by simp)
+        have b := h 1 (by simp)
+        simp [a, b]
+      · by_cases h1 : p = 1
+        · subst h1
+          have b := h 1 (by simp)
+          simp [b]
+        · simp [h0, h1] }
+
+def lit3Recorded (e : Env Nat Nat) (p : Nat) : List (Nat × Option Nat) := if p = 0 then [(1, e 1)] else []
+
+/-- the hypotheses of `code_converge3` hold for a project in which one SOURCE reads another (excluded by `code_converge`):
+for every history the open project delivers the clean build -/
+example (post : Store Nat Nat Nat → Nat) (e₀ : Env Nat Nat) (ops : List (Op Nat Nat)) :
+    let final := codeRun3 lit3 lit3Recorded [0, 1] post (CodeSt3.init lit3 lit3Recorded [0, 1] post e₀) ops
+    final.store = storeOf lit3 [0, 1] (envAfter e₀ ops) ∧
+    deliver post final.toSt = post (storeOf lit3 [0, 1] (envAfter e₀ ops)) := by
+  have h := code_converge3 lit3 (fun k => if k = 100 then 0 else 1) [0, 1]
+    (by
+      intro e p k pg hm
+      simp only [lit3, lit3Parse] at hm
+      by_cases h0 : p = 0
+      · subst h0; simp at hm; simp [hm.1]
+      · by_cases h1 : p = 1
+        · subst h1; simp at hm; simp [hm.1]
+        · simp [h0, h1] at hm)
+    lit3Recorded
+    (by
+      intro e s q hs _ hq hne
+      simp only [lit3] at hq
+      by_cases h0 : s = 0
+      · subst h0
+        simp at hq
+        rcases hq with hq | hq
+        · exact absurd hq hne
+        · subst hq; simp [lit3Recorded]
+      · simp [h0] at hq
+        exact absurd hq hne)
+    (by
+      intro e e' s h
+      unfold lit3Recorded
+      by_cases h0 : s = 0
+      · subst h0
+        have b := h 1 (by simp [lit3])
+        simp [b]
+      · simp [h0])
+    post e₀ ops
+  exact ⟨h.2.1, h.2.2⟩
+
+/-- ... and the history the repair is about: the shown file changes, the page that shows it is re-parsed -/
+example :
+    (chosen3 [0, 1] (fun s => lit3Recorded (fun p => if p ≤ 1 then some 5 else none) s)
+      (fun p => if p ≤ 1 then some 5 else none) (Op.update 1 6) 1) = [1, 0] ∧
+    (chosen3 [0, 1] (fun s => lit3Recorded (fun p => if p ≤ 1 then some 5 else none) s)
+      (fun p => if p ≤ 1 then some 5 else none) (Op.update 1 5) 1) = [1] := by
+  constructor <;> decide
+
 /-! ## A concrete project (non-vacuity and refutation witnesses)
 
 paths: `0` = `index.txt` (a page that literal-includes file `2`), `1` = `includes/extracts-a.yaml` (one generated
